@@ -104,6 +104,11 @@ def cases(ctx):
     for j in range((6 if quick else 40)):
         yield {'salt': rng.randint(0, 10 ** 9), 'rows': rng.choice([12, 30, 50]), 'enc': rng.choice(['cp500', 'cp037']), 'blocked': False,
                'entry': 'cli_run', 'shape': 'space_heavy'}
+    # the configuration object handed to the two functions is the caller's: used for one table, then edited in place (DE48
+    # stops being a PDS carrier, so PDS columns travel in DE62 onwards), then used for the next table
+    for j in range(2 if quick else 8):
+        yield {'salt': rng.randint(0, 10 ** 9), 'rows': rng.choice([2, 6]), 'enc': rng.choice(CODECS), 'blocked': bool(j % 2),
+               'entry': 'function', 'shape': 'pds_with_others', 'config_edited': True}
     # rows whose record is longer than one 1012-byte payload and ends exactly on a payload boundary of the blocked file
     for j in range((2 if quick else 12)):
         yield {'salt': rng.randint(0, 10 ** 9), 'rows': rng.choice([3, 5, 8]), 'enc': rng.choice(CODECS), 'blocked': True,
@@ -254,14 +259,24 @@ def judge(ctx, case):
     if any(ch in text for ch in ',"') and '""' in text:
         ctx.count('tables with quoted cells')
 
+    conf = ctx.config
+    if case.get('config_edited'):
+        import copy
+        conf = copy.deepcopy(ctx.config)
+        warm = 'MTI,PDS0023,DE2\n1240,ABC,4444555566667777\n'
+        ctx.call(lambda: ctx.t_in.mci_csv_to_ipm(in_csv=io.StringIO(warm, newline=''), out_ipm=io.BytesIO(), config=conf,
+                                                 out_encoding=enc, no1014blocking=not blocked), budget=6000000)
+        conf['bit_config']['48'].pop('field_processor', None)
+        ctx.count('tables converted after the configuration object was edited in place')
+
     def run():
         if case['entry'] == 'function':
             ipm = io.BytesIO()
-            ctx.t_in.mci_csv_to_ipm(in_csv=io.StringIO(text, newline=''), out_ipm=ipm, config=ctx.config, out_encoding=enc,
+            ctx.t_in.mci_csv_to_ipm(in_csv=io.StringIO(text, newline=''), out_ipm=ipm, config=conf, out_encoding=enc,
                                     no1014blocking=not blocked)
             data = ipm.getvalue()
             out = io.StringIO()
-            ctx.t_out.mci_ipm_to_csv(in_ipm=io.BytesIO(data), out_csv=out, config=ctx.config, in_encoding=enc, no1014blocking=not blocked)
+            ctx.t_out.mci_ipm_to_csv(in_ipm=io.BytesIO(data), out_csv=out, config=conf, in_encoding=enc, no1014blocking=not blocked)
             return len(data), out.getvalue()
         src = os.path.join(ctx.tmpdir, 'in.csv')
         ipm = os.path.join(ctx.tmpdir, 'mid.ipm')
@@ -321,6 +336,8 @@ def require(m):
     reasons = []
     if set(m['classes'].get('entries', ())) != {'function', 'cli_run'}:
         reasons.append('both entry points not driven')
+    if not m['counters'].get('tables converted after the configuration object was edited in place') and not m['violations']:
+        reasons.append('no table converted after an in-place edit of the configuration object')
     if not m['counters'].get('tables with a record over 1012 bytes ending exactly on a payload boundary') and not m['violations']:
         reasons.append('no blocked table with a long record ending exactly on a payload boundary')
     if not m['counters'].get('unblocked EBCDIC files made mostly of spaces through cli_run') and not m['violations']:
